@@ -52,6 +52,26 @@ class Klass:
         self.a, self.k = a, k
 
 
+class Marker:
+    """Its printer prints its argument under a user-context entry (ctx.assoc), as extras/django does."""
+
+    def __init__(self, x):
+        self.x = x
+
+    def __repr__(self):
+        return 'Marker(%r)' % (self.x,)
+
+
+class Reader:
+    """Its printer reads that user-context entry (ctx.get) and abbreviates itself under it."""
+
+    def __init__(self, x):
+        self.x = x
+
+    def __repr__(self):
+        return 'Reader(%r)' % (self.x,)
+
+
 _reg = []
 
 
@@ -77,6 +97,16 @@ def ensure_registered():
                 kw = tuple(kw)
             return pretty_call_alt(ctx, v.fn, args=v.args, kwargs=kw)
         return pretty_call(ctx, v.fn, *v.args, **dict(v.kwargs))
+
+    @register_pretty(Marker)
+    def pretty_marker(v, ctx):
+        return pretty_call(ctx.assoc('c17_short', True), Marker, v.x)
+
+    @register_pretty(Reader)
+    def pretty_reader(v, ctx):
+        if ctx.get('c17_short'):
+            return pretty_call(ctx, Reader)
+        return pretty_call(ctx, Reader, v.x)
     install_extras(['dataclasses', 'attrs'])
     fixtures.register()
     _reg.append(1)
@@ -85,7 +115,8 @@ def ensure_registered():
 def arg_values():
     from prettyprinter import comment
     # None and Ellipsis print as shared module-level documents: repeated occurrences are the same object
-    return [1, 'x', [1], (1,), {'a': 1}, [], comment(2, 'c'), Call(3, k=[4]), None, ...]
+    return [1, 'x', [1], (1,), {'a': 1}, [], comment(2, 'c'), Call(3, k=[4]), None, ...,
+            Marker(Reader(6)), Reader(7)]
 
 
 CALLABLES = [('module function', module_fn, 'mc.checks.c17.module_fn'), ('class', Klass, 'mc.checks.c17.Klass'),
@@ -193,11 +224,22 @@ def mk_dataclass(fields, variant, idx):
             ns[name] = dataclasses.field(default=DEFAULTS['default'], repr=rp)
         else:
             ns[name] = dataclasses.field(default_factory=lambda: [5], repr=rp)
+    # pseudo-fields, which are not constructor arguments of the printed call: a class variable whose
+    # value has changed since the class was created, one declared without a value and assigned later,
+    # and an init-only variable with a default
+    import typing
+    ann['instances'] = typing.ClassVar[int]
+    ns['instances'] = 0
+    ann['registry'] = typing.ClassVar[dict]
+    ann['seed'] = dataclasses.InitVar[int]
+    ns['seed'] = 0
     ns['__annotations__'] = ann
     ns['__module__'] = fixtures.__name__
     cls = type('DC%d' % idx, (), ns)
     kw = {'frozen': True} if variant == 'frozen' else {'slots': True} if variant == 'slots' else {}
     cls = dataclasses.dataclass(**kw)(cls)
+    cls.instances = 3
+    cls.registry = {'x': None}
     cls.__qualname__ = cls.__name__
     setattr(FX, cls.__name__, cls)
     return cls
